@@ -119,6 +119,7 @@ const (
 	verifOpAddrShape
 	verifOpTrunc
 	verifOpExtend
+	verifOpRebindID
 )
 
 type verifOp struct {
@@ -138,6 +139,11 @@ func verifOps(n int, header byte, full bool) []verifOp {
 	for k := 0; k < 3; k++ {
 		ops = append(ops, verifOp{kind: verifOpAddrShape, pos: k})
 	}
+	// replay of the signed payload under another id: id byte changed AND the
+	// address recomputed as keccak(id'||owner)
+	for _, p := range []int{0, 15, 31} {
+		ops = append(ops, verifOp{kind: verifOpRebindID, pos: p, val: 0x01}, verifOp{kind: verifOpRebindID, pos: p, val: 0x80})
+	}
 	if !full {
 		return ops
 	}
@@ -149,6 +155,19 @@ func verifOps(n int, header byte, full bool) []verifOp {
 	}
 	ops = append(ops, verifOp{kind: verifOpExtend})
 	return ops
+}
+
+// verifChooseIdx picks an index 0..n-1 as two choices (block of 8, offset), so
+// that the engine's sharding on the first two choice levels can skip whole
+// blocks that belong to another shard.
+func verifChooseIdx(x *mc.X, n int) int {
+	const k = 8
+	hi := x.Choose((n + k - 1) / k)
+	rem := n - hi*k
+	if rem > k {
+		rem = k
+	}
+	return hi*k + x.Choose(rem)
 }
 
 func TestVerifC05(t *testing.T) {
@@ -171,6 +190,7 @@ func TestVerifC05(t *testing.T) {
 		"header_byte":       "signature byte 64 set to {v+4, other recovery id, other recovery id+4, 0, 26, 35}",
 		"address_mutation":  "every byte xor 0x01 and xor 0x80; 31 bytes; 33 bytes; empty",
 		"truncation":        "to every length 0..len-1, and extension by one zero byte",
+		"id_rebinding":      "id byte {0,15,31} xor {0x01,0x80} with the address recomputed as keccak(id'||owner) (signed payload replayed under another id)",
 	}}, func(x *mc.X) {
 		combo := x.Choose(27)
 		ki, ii, li := combo/9, (combo/3)%3, combo%3
@@ -210,7 +230,7 @@ func TestVerifC05(t *testing.T) {
 			ops = verifOps(n, hdr, full)
 			opsMemo[combo] = ops
 		}
-		op := ops[x.Choose(len(ops))]
+		op := ops[verifChooseIdx(x, len(ops))]
 		x.Logf("key %d id %d wrapped data %d bytes: serialized %d bytes, header byte %d", ki, ii, dataLens[li], n, b.data[96])
 
 		data := append([]byte{}, b.data...)
@@ -257,6 +277,11 @@ func TestVerifC05(t *testing.T) {
 			data = data[:op.pos]
 			region = "truncated"
 			x.Logf("truncated to %d bytes", op.pos)
+		case verifOpRebindID:
+			data[op.pos] ^= op.val
+			addr = verifKeccak(data[:32], b.owner)
+			region = "id-rebound"
+			x.Logf("id byte %d ^= %#x and address := keccak(id'||owner)", op.pos, op.val)
 		case verifOpExtend:
 			data = append(data, 0)
 			region = "extended"
@@ -303,7 +328,7 @@ func TestVerifC05(t *testing.T) {
 		switch {
 		case want:
 			// the mutation produced another encoding of an authentic chunk
-			x.Tag("encoding-equivalent")
+			x.Tag("equivalent-encoding-" + region)
 			x.Outcome(fmt.Sprintf("encoding-equivalent(%s)->accepted=%v", region, got))
 		case ferr == nil:
 			// parses and recovers some key, but the address does not commit to it
